@@ -140,7 +140,9 @@ namespace DFS
 
   bool CatalogEntry::has_name(const ParsedFileName& wanted) const
   {
-    if (wanted.dir != directory())
+    // Directory names, like file names, are not case-sensitive.
+    if (toupper(static_cast<unsigned char>(wanted.dir))
+	!= toupper(static_cast<unsigned char>(directory())))
       {
 #if VERBOSE_FOR_TESTS
 	std::cerr << "No match; " << wanted.dir << " != " << directory() << "\n";
